@@ -45,13 +45,20 @@ func VH_ParseAnyString() {
 	vCheckParseResult(r, err)
 }
 
-var vFlagTemplates = []string{"-a ", "-A ", "-F ", "-C ", "-S ", "-k ", "-p ", "-w ", "-D ", "-a always,exit -F ", "-a always,exit -S ", "-w /zzverif/x -p ", "-a exit,always -C "}
+var vFlagTemplates = []string{"-a ", "-A ", "-F ", "-C ", "-S ", "-k ", "-p ", "-w ", "-D ", "-a always,exit -F ", "-a always,exit -S ", "-w /zzverif/x -p ", "-a exit,always -C ",
+	// appended later: the hole inside quotes (@ marks it), so that blanks and operator characters reach the flag's value
+	"-a always,exit -F '@'", "-a always,exit -F \"@\"", "-a always,exit -C '@'", "-a always,exit -S '@' -k '@'", "-w '@' -p '@' -k '@'", "-a always,exit -F a0=1 -k '@'", "-a '@' -S open"}
 
 // VH_ParseHole: a symbolic hole of n bytes after each flag.
 func VH_ParseHole() {
 	t := vFlagTemplates[vParam("template", 0)]
 	n := vLen("n", vParam("maxlen", 3))
 	hole := vASCII("hole", n)
+	if strings.Contains(t, "@") {
+		r, err := Parse(strings.ReplaceAll(t, "@", hole))
+		vCheckParseResult(r, err)
+		return
+	}
 	r, err := Parse(t + hole)
 	vCheckParseResult(r, err)
 }
